@@ -23,6 +23,7 @@ def sh(cmd, cwd=None):
 
 meta = {"property": ID, "variant": NAME, "round": PREFIX, "ran": []}
 sh("git checkout -- src", wt)
+sh("git clean -fdq", wt)   # demo files the author left behind must not run as part of "the existing suite"
 shutil.copy(demo_src, f"{wt}/tests/{demo_name}.rs")
 rc, o = sh(f"cargo test --offline --test {demo_name}", wt)
 meta["demo_on_clean"] = "pass" if rc == 0 else "FAIL"
